@@ -174,11 +174,16 @@ def run_kani(stage, pid, names, extra_flags, timeout_s, jobs, playback=False):
     paths = {harness_path(pid, n): n for n in names}
     cmd = ["cargo", "kani", "-p", LIB, "--exact", "--output-format", "terse",
            "-Z", "unstable-options", "--no-assertion-reach-checks", "--harness-timeout", "%ds" % timeout_s, "-j", str(jobs)]
+    tail = []
+    if "--cbmc-args" in extra_flags:   # swallows everything after it: must come last
+        i = extra_flags.index("--cbmc-args")
+        extra_flags, tail = extra_flags[:i], extra_flags[i:]
     cmd += extra_flags
     if playback:
         cmd += ["-Z", "concrete-playback", "--concrete-playback=print"]
     for p in paths:
         cmd += ["--harness", p]
+    cmd += tail
     t0 = time.time()
     try:
         r = subprocess.run(cmd, cwd=os.path.join(stage.dir, LIB), env=ENV, capture_output=True, text=True,
@@ -291,10 +296,10 @@ def native_replay(stage, entry, name, values):
             f.write(",".join(str(x) for x in v) + "\n")
     try:
         r = subprocess.run([os.path.join(tdir, "debug", "verif-replay"), entry, name, vf],
-                           capture_output=True, text=True, timeout=120)
+                           capture_output=True, text=True, timeout=20)
         out = r.stdout + r.stderr
     except subprocess.TimeoutExpired:
-        return {"reproduced": True, "violated": [], "panic": "native replay did not terminate within 120 s", "raw": "timeout"}
+        return {"reproduced": True, "violated": [], "panic": "native replay did not terminate within 20 s", "raw": "timeout"}
     violated = re.findall(r"(?m)^REPLAY-VIOLATED (.*)$", out)
     mp = re.search(r"(?m)^REPLAY-PANIC (.*)$", out)
     ok_hdr = re.search(r"REPLAY underflow=false assume_failed=false", out) is not None
